@@ -163,8 +163,8 @@ def acl_case_st(draw, tier):
         aces = [it for it in acl["items"] if it["t"] == "ace"]
         if aces:
             acl["max_ncwb"] = 30
-            wide = 0x03FFFE00 | draw(st.integers(0, 255)) << 1  # >= 17 non-contiguous bits
-            draw(st.sampled_from(aces))["rec"]["src"] = {"k": "wild", "b": 0x0A000001, "w": wide & ~1}
+            wide = 0x03FFFE00 | (draw(st.integers(0, 255)) << 1)  # >= 17 non-contiguous bits, bit 0 not wild
+            draw(st.sampled_from(aces))["rec"]["src"] = {"k": "wild", "b": 0x08000001, "w": wide & ~1}
     to = "nxos" if acl["platform"] == "ios" else "ios"
     return {"acl": acl, "to": to, "alias": draw(G.alias_st(to))}
 
